@@ -258,6 +258,16 @@ pub fn file_text(kind: &str, n: u32, variant: u32) -> String {
             1 => format!("---@class LibCls{n}\n---@field id string\nlocal LibCls{n} = {{}}\nLibGlob{n} = 1\nreturn LibCls{n}\n"),
             _ => format!("return {{}}\n"),
         },
+        // ---- a class declared both in the library root and in the main workspace (C35 only: not in
+        // GROUP_KINDS, so the other checks' workspaces are unchanged)
+        "libpart_lib" => match v {
+            0 => format!("---@class SharedCls{n}\n---@field from_lib integer\n\n---@class LibOnlyCls{n}\n"),
+            _ => format!("---@class (partial) SharedCls{n}\n---@field from_lib integer\n\n---@alias SharedAlias{n} integer\n"),
+        },
+        "libpart_main" => match v {
+            0 => format!("---@class SharedCls{n}\n---@field from_main string\n\n---@class MainOnlyCls{n}\n"),
+            _ => format!("---@class (partial) SharedCls{n}\n---@field from_main string\nlocal S{n} = {{}}\nreturn S{n}\n"),
+        },
         "lib_use" => match v {
             0 => format!("local L = require(\"libmod{n}\")\n---@type LibCls{n}\nlocal l{n} = L\nlocal i{n} = l{n}.id\nreturn i{n}, LibGlob{n}\n"),
             1 => format!("---@type LibCls{n}\nlocal l{n} = {{}}\nreturn l{n}.id\n"),
@@ -445,6 +455,7 @@ pub fn group(kind: &str, n: u32) -> Vec<FileSpec> {
         "broken" => vec![f(format!("d/broken{n}.lua"), "broken")],
         "meta" => vec![f(format!("meta/m{n}.lua"), "meta"), f(format!("meta/use{n}.lua"), "meta_use")],
         "lib" => vec![f(format!("lib/libmod{n}.lua"), "lib"), f(format!("app/libuse{n}.lua"), "lib_use")],
+        "libpart" => vec![f(format!("lib/shared{n}.lua"), "libpart_lib"), f(format!("app/shared{n}.lua"), "libpart_main")],
         "member" => vec![f(format!("mb/a{n}.lua"), "memb_a"), f(format!("mb/b{n}.lua"), "memb_b"), f(format!("mb/use{n}.lua"), "memb_use")],
         "generic" => vec![f(format!("gen/def{n}.lua"), "gen_def"), f(format!("gen/use{n}.lua"), "gen_use")],
         "overload" => vec![f(format!("ovl/def{n}.lua"), "ovl_def"), f(format!("ovl/use{n}.lua"), "ovl_use")],
